@@ -659,7 +659,20 @@ func (g *kgen) record() sx.Sx {
 	add("neg", sInt(-3))
 	add("arr", sArr(sObj(sx.S("x"), sInt(1)), sObj(sx.S("x"), sInt(2)), sObj(sx.S("x"), scalar())))
 	add("j", sStr(nested))
-	add("jb", sStr(base64.StdEncoding.EncodeToString([]byte(nested))))
+	// base64 as the base64 tool, PEM and MIME writers emit it: a trailing newline, lines of 16 / 20 characters, a line
+	// break inside the first quantum (encoding/base64 skips CR and LF, and json() / xml() read such a body like any other)
+	jb := base64.StdEncoding.EncodeToString([]byte(nested))
+	switch r.Intn(8) {
+	case 0:
+		jb += "\n"
+	case 1:
+		jb = wrapLines(jb, 16, "\r\n")
+	case 2:
+		jb = wrapLines(jb, 20, "\n") + "\n"
+	case 3:
+		jb = jb[:2] + "\n" + jb[2:]
+	}
+	add("jb", sStr(jb))
 	add("H", sObj(sx.S("Content-Type"), sStr("hello"), sx.S("X-Id"), sInt(5), sx.S("ContentType"), sStr("hello"), sx.S("XId"), sInt(5)))
 	return sx.L(append([]sx.Sx{sx.A("o")}, pairs(fields)...)...)
 }
